@@ -36,7 +36,7 @@ COMPONENTS = {
              "socketserver (whatever class comm.server instantiates; serve_forever, process_request)",
              "ledger.protocol", "ledger.hsm2dongle", "ledgerblue HID transport"],
     "stub": ["client sockets / listener / selector (SimNet)", "threading primitives (baton scheduler)",
-             "hid link with drawn latencies", "Signer model (record-only, request-derived signatures)",
+             "hid link with drawn latencies and 0..1 injected link fault (read / write error, silence)", "Signer model (record-only, request-derived signatures)",
              "clock"],
 }
 ASSUMPTIONS = [
@@ -49,10 +49,10 @@ def SIM_CFG(tier):
     return {"max_clients": 16 if tier == "thorough" else 8}
 
 
-def make_request(ch, i):
+def make_request(ch, i, uihb=True):
     """-> (request, checker(reply) -> reason|None, kind)"""
     kind = ch.pick(["sign.hash", "sign.auth", "advance", "ancestor", "state", "heartbeat", "pubkey",
-                    "sign.hash", "sign.auth", "uiheartbeat"], "req.kind")
+                    "sign.hash", "sign.auth"] + (["uiheartbeat"] if uihb else ["state"]), "req.kind")
     if kind == "sign.hash":
         h = hashlib.sha256(b"c12" + bytes([i]) + ch.bytes(4, "uniq")).digest()
         path = c01.PATHS[2 + ch.draw(4, "path")]
@@ -119,7 +119,24 @@ def run_one(ch, cfg):
     # per run: a fast, an ordinary or a slow device (every answer stays below the 10 s exchange
     # time-out, whole requests may take minutes)
     lat = [[0.0, 0.0005, 0.01, 0.3], [0.0, 0.0005], [0.0, 0.3, 2.5, 6.0]][ch.draw(3, "device.speed")]
-    w = ServerWorld(ch, device_cfg={"sig_from_request": True,
+    # link faults while several clients are queued: the request that meets one gets the device-error
+    # code (C11); everybody else still gets their own reply, and the repair belongs to the next request
+    # (one fault per run: a second one could land in the repair's own onboarded check, which ends the
+    # manager by design)
+    nfaults = [0, 0, 1][ch.draw(3, "link.faults")]
+    targets = {}
+    for _ in range(nfaults):
+        targets[4 + ch.draw(80, "fault.at")] = ch.pick(
+            ["read_err_before", "read_err_after", "write_err", "timeout_before"], "fault.kind")
+    faulted = set()
+
+    def fault_fn(idx, apdu):
+        kind = targets.get(idx)
+        if kind is not None:
+            faulted.add(dev.tag())
+        return kind
+    w = ServerWorld(ch, fault_fn=fault_fn if nfaults else None,
+                    device_cfg={"sig_from_request": True,
                                     "post_exit_signer": {"mode": 0x04, "delay": 0.3, "silence": "read_err"},
                                     "post_exit_uihb": {"mode": 0x03, "delay": 0.3, "silence": "read_err"}},
                     step_cap=60000,
@@ -134,7 +151,7 @@ def run_one(ch, cfg):
     kinds = []
     plans = []
     for i in range(nclients):
-        req, chk, kind = make_request(ch, i)
+        req, chk, kind = make_request(ch, i, uihb=not nfaults)
         kinds.append(kind)
         start = ch.pick([0.0, 0.0, 0.001, 0.05, 1.0], "client.start")
         frag = ch.draw(4, "client.frag") == 1
@@ -193,6 +210,8 @@ def run_one(ch, cfg):
             viol.append(("reply/malformed", "client %d (%s) received %r" % (i, kinds[i], data[:200])))
             continue
         why = chk(rep)
+        if why and d[2] in faulted and rep.get("errorcode") == -905:
+            why = None            # this request met the injected link fault
         if why:
             viol.append(("reply/not-own", "client %d (%s): %s" % (i, kinds[i], why)))
     # ---- contiguity of the tagged device log
@@ -214,7 +233,7 @@ def run_one(ch, cfg):
     sched_sig = hashlib.sha1("/".join(k.sched_trace).encode()).hexdigest()[:12]
     st = (tuple(w.net.accept_order), sched_sig)
     return {"violations": viol, "digest": w.log.digest(), "state": st,
-            "nontrivial": overlap >= 1, "faults": {},
+            "nontrivial": overlap >= 1, "faults": dict(w.link.stats.faults),
             "probes": {"max_backlog_%d" % min(overlap, 8): 1, "clients": nclients,
                        "handler_threads": sum(1 for t in k.tasks if t.name.startswith("thread")
                                               or t.name.startswith("Thread"))},
